@@ -15,7 +15,7 @@ from cflib.crtp.crtpstack import CRTPPacket
 
 class Config:
     def __init__(self, n_log=3, n_param=2, fault_at=None, fault_mode='driver', log_crc=0x11111111, par_crc=0x22222222,
-                 needs_resending=False, hold_after=None, dup_notify=False, dup_after=None, mems=()):
+                 needs_resending=False, hold_after=None, dup_notify=False, dup_after=None, mems=(), slow_send=None):
         self.n_log, self.n_param = n_log, n_param
         self.fault_at, self.fault_mode = fault_at, fault_mode
         self.log_crc, self.par_crc = log_crc, par_crc
@@ -25,6 +25,9 @@ class Config:
         # packets have been exchanged (a re-sent request answered twice, the second answer late)
         self.dup_after = dup_after
         self.mems = tuple(mems)          # memory types the device reports (1 = 1-wire deck memory, 0 = I2C EEPROM, ...)
+        # [port, seconds]: send_packet blocks that long for packets of this port (RadioDriver.send_packet blocks up to
+        # 2 s when its out queue is full) — the caller holds Crazyflie's send lock meanwhile
+        self.slow_send = slow_send
         self.dup_notify = dup_notify     # firmware re-announces parameter 0 (value-updated notifications) during the download
 
 
@@ -156,9 +159,15 @@ class FakeLink(CRTPDriver):
         if self.closed:
             self.sent_after_close += 1
             return
+        c = self.cfg
+        if c.slow_send and pk.port == c.slow_send[0]:
+            import time
+            time.sleep(c.slow_send[1])
+            if self.closed:
+                self.sent_after_close += 1
+                return
         self.sent.append((pk.port, pk.channel, d))
         self._tick()
-        c = self.cfg
         if (c.fault_at is not None and c.fault_mode == 'sender' and self.count >= c.fault_at and not self.fault_done):
             # RadioDriver.send_packet: out_queue.put(pk, True, 2) times out, then reports from the sending thread
             self.fault_done = True
